@@ -231,6 +231,7 @@ func (x *ChanPubSub[C, V]) Send(value V) (sent int) {
 
 		x.pongN = sent
 		x.pongC.Broadcast() // wake up any blocking Wait calls
+		verifAt("cps.send.pong.bcast", x, 0)
 
 		// wait for our pongs to be consumed
 		for x.pongN != 0 {
@@ -361,6 +362,7 @@ func (x *ChanPubSub[C, V]) Wait() {
 
 	if x.pongN == 0 {
 		x.pongC.Broadcast() // wake up Send call
+		verifAt("cps.wait.bcast", x, 0)
 	}
 }
 
